@@ -321,3 +321,102 @@ fn run_exec(spec: &Spec, cases_path: &str, expected_path: &str) {
     // leaked hanging workers must not keep the process alive
     std::process::exit(0);
 }
+
+// ---------------------------------------------------------------- robustness streams (FRAMEWORK.md "Robustness streams")
+
+/// shapes beyond the exhaustive small scope that every structural generator should include:
+/// axis lengths 7..17 in leading / inner / trailing position and element counts above 256, 1024 and 4096
+pub fn big_shapes() -> Vec<Vec<usize>> {
+    vec![vec![8], vec![9], vec![16], vec![17], vec![64], vec![100], vec![300], vec![1030], vec![4100],
+         vec![3, 8], vec![8, 3], vec![3, 9], vec![9, 9], vec![17, 16], vec![16, 17], vec![2, 8, 3], vec![3, 2, 8], vec![8, 2, 3],
+         vec![4, 4, 4, 4], vec![5, 5, 5, 5], vec![40, 30], vec![70, 70], vec![2, 3, 4, 5, 2], vec![7, 1, 9], vec![1, 16, 1, 17]]
+}
+/// shapes with zero-length axes
+pub fn zero_shapes() -> Vec<Vec<usize>> {
+    vec![vec![0], vec![0, 0], vec![2, 0], vec![0, 2], vec![1, 0], vec![0, 1], vec![2, 0, 3], vec![0, 0, 2], vec![2, 3, 0]]
+}
+
+/// tag ↦ element for the cross-type sweep of value-blind operations
+pub fn tag_u8(t: i64) -> u8 { t.rem_euclid(251) as u8 }
+/// tag 0 becomes NEGATIVE zero, so a copy that goes through `== zero`, `+ 0.0` or a zero-filled buffer is visible bit-wise
+pub fn tag_f64z(t: i64) -> f64 { if t == 0 { -0.0 } else { t as f64 } }
+pub fn tag_i8(t: i64) -> i8 { (t.rem_euclid(127)) as i8 }
+pub fn parse_arr_u8(s: &str) -> Array<u8> { let (sh, e) = parse_arr_raw(s); Array::new(e.into_iter().map(tag_u8).collect(), sh).expect("harness: array literal") }
+pub fn parse_arr_i8(s: &str) -> Array<i8> { let (sh, e) = parse_arr_raw(s); Array::new(e.into_iter().map(tag_i8).collect(), sh).expect("harness: array literal") }
+pub fn parse_arr_f64z(s: &str) -> Array<f64> { let (sh, e) = parse_arr_raw(s); Array::new(e.into_iter().map(tag_f64z).collect(), sh).expect("harness: array literal") }
+pub fn parse_arr_bool(s: &str) -> Array<bool> { let (sh, e) = parse_arr_raw(s); Array::new(e.into_iter().map(|t| t % 2 != 0).collect(), sh).expect("harness: array literal") }
+pub fn parse_arr_list_u8(s: &str) -> Vec<Array<u8>> { if s == "-" { vec![] } else { s.split(';').map(parse_arr_u8).collect() } }
+pub fn parse_arr_list_f64z(s: &str) -> Vec<Array<f64>> { if s == "-" { vec![] } else { s.split(';').map(parse_arr_f64z).collect() } }
+
+fn same_class<A, B>(a: &Result<A, ArrayError>, b: &Result<B, ArrayError>) -> bool { a.is_ok() == b.is_ok() }
+
+/// A value-blind operation must do the same thing whatever the element type: compare the result on i64 tags with the results
+/// of the SAME call on `u8` tags (mod 251) and on `f64` tags with tag 0 = -0.0 (bit-exact).  `None` = they agree.
+pub fn cross_type_arr(ri: &Result<Array<i64>, ArrayError>, ru: &Result<Array<u8>, ArrayError>, rf: &Result<Array<f64>, ArrayError>) -> Option<String> {
+    if !same_class(ri, ru) { return Some(format!("element type u8 gives a different outcome class ({})", show_res(ru, |a| show_arr(a)))); }
+    if !same_class(ri, rf) { return Some(format!("element type f64 gives a different outcome class ({})", show_res(rf, |a| show_arr(a)))); }
+    if let (Ok(i), Ok(u), Ok(f)) = (ri, ru, rf) {
+        let (ei, eu, ef) = (i.get_elements().unwrap(), u.get_elements().unwrap(), f.get_elements().unwrap());
+        if i.get_shape().unwrap() != u.get_shape().unwrap() || ei.len() != eu.len() { return Some(format!("u8 result has another shape: {}", show_arr(u))); }
+        if i.get_shape().unwrap() != f.get_shape().unwrap() || ei.len() != ef.len() { return Some(format!("f64 result has another shape: {}", show_arr(f))); }
+        for p in 0..ei.len() {
+            if eu[p] != tag_u8(ei[p]) { return Some(format!("u8 run differs at flat position {p}: {} instead of {}", eu[p], tag_u8(ei[p]))); }
+            if ef[p].to_bits() != tag_f64z(ei[p]).to_bits() { return Some(format!("f64 run differs bit-wise at flat position {p}: {:?} instead of {:?} (tag 0 is -0.0)", ef[p], tag_f64z(ei[p]))); }
+        }
+    }
+    None
+}
+pub fn cross_type_list(ri: &Result<Vec<Array<i64>>, ArrayError>, ru: &Result<Vec<Array<u8>>, ArrayError>, rf: &Result<Vec<Array<f64>>, ArrayError>) -> Option<String> {
+    if !same_class(ri, ru) || !same_class(ri, rf) { return Some("another element type gives a different outcome class".into()); }
+    if let (Ok(i), Ok(u), Ok(f)) = (ri, ru, rf) {
+        if i.len() != u.len() || i.len() != f.len() { return Some("another element type gives a different number of pieces".into()); }
+        for k in 0..i.len() { if let Some(d) = cross_type_arr(&Ok(i[k].clone()), &Ok(u[k].clone()), &Ok(f[k].clone())) { return Some(format!("piece {k}: {d}")); } }
+    }
+    None
+}
+
+/// Run `$body` (an expression in the array binding `$a`, returning `Result<Array<_>, ArrayError>`) on the i64, u8 and f64(-0.0)
+/// versions of the tag array `$src`, under `catch_unwind`.  Evaluates to the canonical i64 answer text, or to a text starting
+/// with `TYPE-DIVERGENCE` when the element types disagree (which then fails the comparison with the model).
+#[macro_export]
+macro_rules! on_types_arr {
+    ($src:expr, |$a:ident| $body:expr) => {{
+        let run_i = || { let $a = $crate::parse_arr_i64($src); std::panic::catch_unwind(std::panic::AssertUnwindSafe(|| $body)) };
+        let run_u = || { let $a = $crate::parse_arr_u8($src); std::panic::catch_unwind(std::panic::AssertUnwindSafe(|| $body)) };
+        let run_f = || { let $a = $crate::parse_arr_f64z($src); std::panic::catch_unwind(std::panic::AssertUnwindSafe(|| $body)) };
+        match (run_i(), run_u(), run_f()) {
+            (Ok(ri), Ok(ru), Ok(rf)) => match $crate::cross_type_arr(&ri, &ru, &rf) { None => $crate::res_arr(&ri), Some(d) => format!("TYPE-DIVERGENCE {d}; i64 run: {}", $crate::res_arr(&ri)) },
+            (Err(_), Err(_), Err(_)) => "panic".to_string(),
+            (ri, ru, rf) => format!("TYPE-DIVERGENCE panic only for some element types (i64 {}, u8 {}, f64 {})", ri.is_err(), ru.is_err(), rf.is_err()),
+        }
+    }};
+}
+/// same for operations returning `Result<Vec<Array<_>>, ArrayError>`
+#[macro_export]
+macro_rules! on_types_list {
+    ($src:expr, |$a:ident| $body:expr) => {{
+        let run_i = || { let $a = $crate::parse_arr_i64($src); std::panic::catch_unwind(std::panic::AssertUnwindSafe(|| $body)) };
+        let run_u = || { let $a = $crate::parse_arr_u8($src); std::panic::catch_unwind(std::panic::AssertUnwindSafe(|| $body)) };
+        let run_f = || { let $a = $crate::parse_arr_f64z($src); std::panic::catch_unwind(std::panic::AssertUnwindSafe(|| $body)) };
+        match (run_i(), run_u(), run_f()) {
+            (Ok(ri), Ok(ru), Ok(rf)) => match $crate::cross_type_list(&ri, &ru, &rf) { None => $crate::res_arr_list(&ri), Some(d) => format!("TYPE-DIVERGENCE {d}; i64 run: {}", $crate::res_arr_list(&ri)) },
+            (Err(_), Err(_), Err(_)) => "panic".to_string(),
+            (ri, ru, rf) => format!("TYPE-DIVERGENCE panic only for some element types (i64 {}, u8 {}, f64 {})", ri.is_err(), ru.is_err(), rf.is_err()),
+        }
+    }};
+}
+/// The chained form: the same call on `Ok(array)` through the `impl … for Result<Array<T>, ArrayError>` must give the same answer
+/// as on the plain receiver.  `$plain` and `$chained` are expressions giving `Result<Array<_>,_>`; evaluates to the plain answer text
+/// or to a `RECEIVER-DIVERGENCE …` text.
+#[macro_export]
+macro_rules! both_receivers_arr {
+    ($plain:expr, $chained:expr) => {{
+        let p = std::panic::catch_unwind(std::panic::AssertUnwindSafe(|| $plain));
+        let c = std::panic::catch_unwind(std::panic::AssertUnwindSafe(|| $chained));
+        match (p, c) {
+            (Ok(p), Ok(c)) => { let (tp, tc) = ($crate::res_arr(&p), $crate::res_arr(&c)); if tp == tc { tp } else { format!("RECEIVER-DIVERGENCE chained call gives `{}`, plain call `{}`", $crate::truncate(&tc, 300), $crate::truncate(&tp, 300)) } }
+            (Err(_), Err(_)) => "panic".to_string(),
+            (p, c) => format!("RECEIVER-DIVERGENCE panic only on one receiver (plain {}, chained {})", p.is_err(), c.is_err()),
+        }
+    }};
+}
